@@ -1,6 +1,6 @@
 (* C20 - the defining formulas, written over sample indices and independent of
    the models' internal state (registers, deques, running sums, flags). *)
-From Coq Require Import List Bool Arith ZArith QArith Qcanon.
+From Coq Require Import String List Bool Arith ZArith QArith Qcanon.
 From AL Require Import Base.CaseLib C20.Model.
 Import ListNotations.
 Open Scope Qc_scope.
@@ -17,7 +17,7 @@ Definition xat (zero : Qc) (xs : list Qc) (n j : nat) : Qc :=
 Definition tabulate {B : Type} (F : nat -> B) (xs : list Qc) : list B := map F (seq 0 (length xs)).
 
 (* ---------------------------------------------------------------- maverage *)
-(* c * (sum of the last `size` samples) *)
+(* c * (sum of the last `size` samples); with c = 1/size: their mean *)
 Definition mav_formula (c : Qc) (size : nat) (zero : Qc) (xs : list Qc) (n : nat) : Qc :=
   c * sum_upto (xat zero xs n) size.
 Definition mav_spec (c : Qc) (size : nat) (zero : Qc) (xs : list Qc) : list Qc :=
@@ -29,33 +29,29 @@ Definition mav_spec (c : Qc) (size : nat) (zero : Qc) (xs : list Qc) : list Qc :
 Definition mav_resid (c : Qc) (size : nat) (zero : Qc) : Qc := zero * (1 - nq size * c).
 Definition mav_offset (s : mav_strategy) (c : Qc) (size : nat) (zero : Qc) : Qc :=
   match s with MFir => 0 | _ => mav_resid c size zero end.
-Definition maverage_spec (s : mav_strategy) (c : Qc) (size : nat) (zero : Qc) (xs : list Qc)
-  : option (list Qc) :=
-  match size with
-  | O => None
-  | _ => Some (map (fun v => v + mav_offset s c size zero) (mav_spec c size zero xs))
-  end.
+Definition mav_spec_off (s : mav_strategy) (c : Qc) (size : nat) (zero : Qc) (xs : list Qc) : list Qc :=
+  map (fun v => v + mav_offset s c size zero) (mav_spec c size zero xs).
+(* c is 1/size up to one float rounding: |1 - size*c| <= 2^-53 *)
+Definition rounded_inverse (c : Qc) (size : nat) : bool :=
+  Qc_leb (qabs (1 - nq size * c)) (qc 1 9007199254740992).
 
 (* ---------------------------------------------------------------- accumulate *)
 Definition acc_spec (xs : list Qc) : list Qc :=
   tabulate (fun n => sum_upto (fun k => nth k xs 0) (S n)) xs.
 
 (* ---------------------------------------------------------------- amdf *)
-(* |x[n] - x[n-lag]|, and its linearly interpolated version for a fractional lag
-   left + wr (weights wl on x[n-left], wr on x[n-left-1]) *)
-Definition absdiff (lg : lagspec) (zero : Qc) (xs : list Qc) : list Qc :=
-  match lg with
-  | LagInt k => tabulate (fun n => qabs (nth n xs 0 - xat zero xs n k)) xs
-  | LagFrac l wl wr =>
-      tabulate (fun n => qabs (nth n xs 0 - (wl * xat zero xs n l + wr * xat zero xs n (S l)))) xs
-  | LagNeg => []
-  end.
-Definition amdf_spec (c : Qc) (size : nat) (zero : Qc) (lg : lagspec) (xs : list Qc)
-  : option (list Qc) :=
-  match lg with
-  | LagNeg => None
-  | _ => maverage_spec MDeque c size zero (absdiff lg zero xs)
-  end.
+(* x[n - lag]; for a fractional lag the linear interpolation between the two
+   neighbouring integral lags floor(lag) and floor(lag)+1 *)
+Definition frac_part (lag : Qc) : Qc := lag - zq (qfloor lag).
+Definition xlag (zero : Qc) (xs : list Qc) (n : nat) (lag : Qc) : Qc :=
+  let l := Z.to_nat (qfloor lag) in
+  (1 - frac_part lag) * xat zero xs n l + frac_part lag * xat zero xs n (S l).
+(* |x[n] - x[n-lag]| *)
+Definition absdiff (zero : Qc) (lag : Qc) (xs : list Qc) : list Qc :=
+  tabulate (fun n => qabs (nth n xs 0 - xlag zero xs n lag)) xs.
+(* its moving average (amdf uses the default strategy of maverage) *)
+Definition amdf_spec (c : Qc) (size : nat) (zero : Qc) (lag : Qc) (xs : list Qc) : list Qc :=
+  mav_spec_off MDeque c size zero (absdiff zero lag xs).
 
 (* ---------------------------------------------------------------- envelope *)
 (* one-pole low-pass g / (1 + a1 z^-1) started at rest:
@@ -78,14 +74,18 @@ Definition clip_formula (low high : option Qc) (x : Qc) : Qc :=
   match high with Some h => qmin y h | None => y end.
 Definition limits_ok (low high : option Qc) : bool :=
   match low, high with Some l, Some h => Qc_leb l h | _, _ => true end.
-Definition clip_spec (low high : option Qc) (xs : list Qc) : option (list Qc) :=
-  if limits_ok low high then Some (map (clip_formula low high) xs) else None.
+Definition clip_spec (low high : option Qc) (xs : list Qc) : res (list Qc) :=
+  if limits_ok low high then Ok (map (clip_formula low high) xs) else Err "ValueError".
 Definition within (low high : option Qc) (y : Qc) : Prop :=
   (forall l, low = Some l -> l <= y) /\ (forall h, high = Some h -> y <= h).
 
 (* ---------------------------------------------------------------- zcross *)
 Definition outside (h x : Qc) : bool := Qc_ltb h x || Qc_ltb x (- h).
-(* the current sign before sample n is read; 0 = not yet defined *)
+(* the current sign before sample n is read; 0 = not yet defined.
+   It starts as the sign of first_sign (0: undefined); while undefined it becomes
+   the sign of the first sample outside the band [-h, h]; once defined it flips
+   exactly at the samples with x * sign < -h (beyond the threshold on the
+   opposite side). *)
 Fixpoint zc_sign (h first_sign : Qc) (xs : list Qc) (n : nat) : Qc :=
   match n with
   | O => if Qc_eqb first_sign 0 then 0 else sgn first_sign
@@ -110,8 +110,6 @@ Fixpoint no_jump (max_delta : Qc) (xs : list Qc) : Prop :=
   | a :: ((b :: _) as r) => qabs (b - a) <= max_delta /\ no_jump max_delta r
   | _ => True
   end.
-Fixpoint jumps_le (bound : Qc) (ys : list Qc) : Prop :=
-  match ys with
-  | a :: ((b :: _) as r) => qabs (b - a) <= bound /\ jumps_le bound r
-  | _ => True
-  end.
+(* every adjacent difference is at most `bound` in absolute value *)
+Definition jumps_le (bound : Qc) (ys : list Qc) : Prop := no_jump bound ys.
+Definition half (x : Qc) : Qc := x / (1 + 1).
